@@ -316,3 +316,9 @@ def twins(rep, mod, methods):
     rep.ob('C20.twins', 'DefNet.vias: per via type all locations of every routed segment', ok)
     if not ok:
         rep.violate('C20.twins', mod, v, 'DefNet.vias', 'DefNet.vias must collect, per via type, the locations of all routed wire segments', node=v)
+
+
+def thorough(rep, repo):
+    """Thorough tier: the quick rules plus checker self-validation on the C20 slice of the mutation corpus."""
+    from kvstatic import thorough as thorough_mod
+    thorough_mod.selftest_slice(rep, repo, 'C20')
